@@ -1,6 +1,7 @@
 import Driver.Proto
 import Driver.Ops.Write
 import ZipVerif.Model.Reader
+import ZipVerif.Model.CryptoExt
 import ZipVerif.Model.Writer
 /- Ops `read.*`: seekable and streaming reader over a byte string, and `new_append` on the same bytes. -/
 
@@ -56,7 +57,61 @@ def parseBefore (s : String) : List BeforeRow :=
       some ⟨m, c, l, k, d⟩
     | _ => none
 
-def mkExtB (rows : List CodecRow) (before : List BeforeRow) : Ext where
+/-- FNV-1a, 64 bit (the harness's fingerprint of an HMAC message) -/
+def fnv1a64 (bs : Bytes) : UInt64 :=
+  bs.foldl (fun h b => (h ^^^ b.toUInt64) * 0x100000001b3) 0xcbf29ce484222325
+
+/-- a key stream cut into its 16-byte blocks -/
+def blocks16 : Nat → Bytes → Array Bytes → Array Bytes
+  | 0, _, acc => acc
+  | f + 1, bs, acc => if bs.isEmpty then acc else blocks16 f (bs.drop 16) (acc.push (bs.take 16))
+
+/-- a row `salt:dk:ks:mlen:mh:mac` of the `aesp=` argument (computed by the harness with the RustCrypto crates for
+the line's password): PBKDF2-HMAC-SHA1(pw, salt) of `dk.length` bytes; the AES key stream of the key `dk[..k]`
+(`k = (dk.length - 2) / 2`), one 16-byte block per counter value from 1; HMAC-SHA1 under the key `dk[k..2k]` of the
+message of length `mlen` whose FNV-1a hash is `mh`. -/
+structure AesRow where
+  salt : Bytes
+  dk : Bytes
+  ks : Array Bytes
+  mlen : Nat
+  mh : UInt64
+  mac : Bytes
+
+def AesRow.k (r : AesRow) : Nat := (r.dk.length - 2) / 2
+
+def parseAesRows (s : String) : List AesRow :=
+  if s == "-" || s == "" then [] else
+  (s.splitOn ";").filterMap fun row =>
+    match row.splitOn ":" with
+    | [salt, dk, ks, mlen, mh, mac] => do
+      let salt ← parseHex salt; let dk ← parseHex dk; let ks ← parseHex ks
+      let mlen ← mlen.toNat?; let mh ← mh.toNat?; let mac ← parseHex mac
+      some ⟨salt, dk, blocks16 (ks.length / 16 + 1) ks #[], mlen, UInt64.ofNat mh, mac⟩
+    | _ => none
+
+/-- The uninterpreted primitives of `Model/Aes.lean` as look-ups into the rows of the op line (a miss yields an
+output of the wrong length: the password verifier then differs and the model answers `invalidpw`, which shows up
+as a disagreement - never as agreement by construction). -/
+def rowPrims (pw : Bytes) (rows : List AesRow) : Aes.AesPrims where
+  pbkdf2 p salt n :=
+    if p != pw then [] else
+    match rows.find? (fun r => r.salt == salt && r.dk.length == n) with
+    | some r => r.dk
+    | none => []
+  block key inp :=
+    if inp.length != 16 then [] else
+    match rows.find? (fun r => r.dk.take r.k == key) with
+    | some r =>
+      let c := Aes.fromLE inp
+      if c = 0 then [] else (r.ks[c - 1]?).getD []
+    | none => []
+  hmac key msg :=
+    match rows.find? (fun r => (r.dk.drop r.k).take r.k == key && msg.length == r.mlen && fnv1a64 msg == r.mh) with
+    | some r => r.mac
+    | none => []
+
+def mkExtB (rows : List CodecRow) (before : List BeforeRow) (P : Aes.AesPrims := rowPrims [] []) : Ext where
   decode m raw :=
     match m with
     | .stored => .ok raw
@@ -71,8 +126,9 @@ def mkExtB (rows : List CodecRow) (before : List BeforeRow) : Ext where
     match before.find? (fun r => r.method == m.toU16.toNat && r.rawCrc == c && r.rawLen == raw.length && r.k == k) with
     | some r => r.bytes
     | none => []
-  zipCrypto _ _ _ := .panic "zipcrypto-not-wired"
-  aes _ _ _ _ := .panic "aes-not-wired"
+  -- the crate's own decryption layers: the models of zipcrypto.rs and aes.rs (Model/CryptoExt.lean)
+  zipCrypto := zipCryptoLayer
+  aes := aesLayer P
 
 def mkExt (rows : List CodecRow) : Ext := mkExtB rows []
 
@@ -182,6 +238,9 @@ def opRead (op : String) (a : Args) : Option String := do
     let pw := match a.get? "pw" with
       | some s => if s == "none" then none else parseHex s
       | none => none
+    let ext := match pw with
+      | some p => mkExtB (parseCodec ((a.get? "codec").getD "-")) [] (rowPrims p (parseAesRows ((a.get? "aesp").getD "-")))
+      | none => ext
     some (readSeek bytes pw ext)
   | "read.stream" => some (readStream bytes ext)
   | "read.append" => some (readAppend bytes)
